@@ -263,9 +263,10 @@ Proof.
 Qed.
 
 (* ---------------- the nearly straight branch of the repaired code -------------
-   abs(a) < 1e-8 abs(b):  s = |b| (t1 - t0) + (a.b)/|b| (t1^2 - t0^2).
+   abs(a) < 1e-6 abs(b):  s = |b| (t1 - t0) + (a.b)/|b| (t1^2 - t0^2).
    It never exceeds the arc length and is within (4/3) |a|^2/|b| (t1^3 - t0^3)
-   of it (relative error <= 4 (|a|/|b|)^2 <= 4e-16 under the code's guard). *)
+   of it (relative error <= 4 (|a|/|b|)^2 <= 4e-12 under the code's guard,
+   below the closed form's own rounding error ~1e-16 |b|/|a| there). *)
 Lemma near_linear_pointwise ax ay bx by_ t :
   let A := hyp ax ay in let B := hyp bx by_ in
   0 <= t <= 1 -> 4 * A <= B -> 0 < B ->
